@@ -10,7 +10,7 @@ From Coq Require Import List NArith Arith Bool.
 From SNT Require Import Base.Outcome Automata.DfaData Automata.DfaDataProofs Automata.Tokenizer
   Automata.TokenizerRun Automata.TokenizerMunch Automata.TokenizerTheorems Automata.Reach Automata.ReachProofs
   Decoder.Payload Decoder.PayloadProofs Decoder.PayloadOld Decoder.TermSizeProofs Decoder.TermcapProofs Decoder.Events
-  Decoder.EventsProofs Decoder.EventsTheorems Gen.ProdDFA.
+  Decoder.EventsProofs Decoder.EventsTheorems Gen.ProdDFA Decoder.ProdTabs.
 Import ListNotations.
 Local Open Scope N_scope.
 
@@ -26,15 +26,15 @@ Definition ev_VC : cert := Eval vm_compute in find_cert event_dfa tc_step 0 sear
 Definition cmd_VC : cert := Eval vm_compute in find_cert command_dfa tc_step 0 search_fuel.
 Definition u8_V : cert := Eval vm_compute in find_cert utf8_dfa len_step 0 search_fuel.
 
-Lemma event_certs : certs_ok event_dfa event_matcher_ids ev_VL ev_VT ev_VC = true.
+Lemma event_certs : certs_ok event_dfa event_matcher_ids prod_tabs ev_VL ev_VT ev_VC = true.
 Proof. vm_compute. reflexivity. Qed.
-Lemma command_certs : certs_ok command_dfa command_matcher_ids cmd_VL cmd_VT cmd_VC = true.
+Lemma command_certs : certs_ok command_dfa command_matcher_ids prod_tabs cmd_VL cmd_VT cmd_VC = true.
 Proof. vm_compute. reflexivity. Qed.
 Lemma utf8_cert : u8_cert_ok utf8_dfa u8_V = true.
 Proof. vm_compute. reflexivity. Qed.
 
-Definition ev_payload := payload_at event_matcher_ids decmode_codes decstatus_codes.
-Definition cmd_payload := payload_at command_matcher_ids decmode_codes decstatus_codes.
+Definition ev_payload := payload_at event_matcher_ids prod_tabs.
+Definition cmd_payload := payload_at command_matcher_ids prod_tabs.
 
 (* ------------------------------------------------------------------------- *)
 (* TTYEventDecoder / TTYCommandDecoder, any byte string, any partition into reads (empty reads
@@ -50,7 +50,7 @@ Theorem C02_total_event : forall (chunks : list (list N)) (fuel : nat),
     tty_decode event_dfa ev_payload s' [] = Ok (s', None, []) /\
     Forall (fun t => match t with TItem it _ => no_panic it | TRaw sp => sp <> [] end)
            (fst (t_munch event_dfa ev_payload (concat chunks))).
-Proof. exact (tty_total event_dfa event_matcher_ids decmode_codes decstatus_codes ev_VL ev_VT ev_VC event_certs). Qed.
+Proof. exact (tty_total event_dfa event_matcher_ids prod_tabs ev_VL ev_VT ev_VC event_certs). Qed.
 
 Theorem C02_total_command : forall (chunks : list (list N)) (fuel : nat),
   (length (concat chunks) + 3 <= fuel)%nat ->
@@ -61,7 +61,7 @@ Theorem C02_total_command : forall (chunks : list (list N)) (fuel : nat),
     tty_decode command_dfa cmd_payload s' [] = Ok (s', None, []) /\
     Forall (fun t => match t with TItem it _ => no_panic it | TRaw sp => sp <> [] end)
            (fst (t_munch command_dfa cmd_payload (concat chunks))).
-Proof. exact (tty_total command_dfa command_matcher_ids decmode_codes decstatus_codes cmd_VL cmd_VT cmd_VC command_certs). Qed.
+Proof. exact (tty_total command_dfa command_matcher_ids prod_tabs cmd_VL cmd_VT cmd_VC command_certs). Qed.
 
 (* every call of a payload decoder — including those whose result is replaced by a longer
    match — is made on a string the automaton accepts (C02_calls_accepted), and on such strings
@@ -71,20 +71,20 @@ Theorem C02_payload_no_panic : forall w q,
   run N (d_start event_dfa) (d_delta event_dfa) w = Some q ->
   d_accepting event_dfa q = true ->
   forall site, item_of ev_payload event_dfa q w <> Some (IPanic site).
-Proof. exact (item_no_panic event_dfa event_matcher_ids decmode_codes decstatus_codes ev_VL ev_VT ev_VC event_certs). Qed.
+Proof. exact (item_no_panic event_dfa event_matcher_ids prod_tabs ev_VL ev_VT ev_VC event_certs). Qed.
 
 Theorem C02_payload_no_panic_command : forall w q,
   run N (d_start command_dfa) (d_delta command_dfa) w = Some q ->
   d_accepting command_dfa q = true ->
   forall site, item_of cmd_payload command_dfa q w <> Some (IPanic site).
-Proof. exact (item_no_panic command_dfa command_matcher_ids decmode_codes decstatus_codes cmd_VL cmd_VT cmd_VC command_certs). Qed.
+Proof. exact (item_no_panic command_dfa command_matcher_ids prod_tabs cmd_VL cmd_VT cmd_VC command_certs). Qed.
 
 Theorem C02_calls_accepted : forall (s : st N pitem) b q' w,
   Inv N pitem (d_start event_dfa) (d_delta event_dfa) (d_accepting event_dfa) (d_terminal event_dfa)
       (item_of ev_payload event_dfa) s ->
   call_of event_dfa s b = Some (q', w) ->
   run N (d_start event_dfa) (d_delta event_dfa) w = Some q' /\ d_accepting event_dfa q' = true.
-Proof. exact (call_accepted event_dfa event_matcher_ids decmode_codes decstatus_codes). Qed.
+Proof. exact (call_accepted event_dfa event_matcher_ids prod_tabs). Qed.
 
 (* Utf8Decoder: never overruns its 4-byte buffer, terminates, yields only scalar values *)
 Theorem C02_utf8_decoder : forall chunks : list (list N),
